@@ -14,8 +14,30 @@ package router
 //@   modifies nothing
 //@   havoc F|state., F|peering., F|switchr., F|m.RoutingTable, MP|
 
+// Sending a ping builds, seals and routes a new frame. Like sendError it is assumed not to touch the frame being
+// handled, the handlers' own tables or the configuration.
+//@ func Router.sendPingMsg
+//@   option trusted
+//@   modifies nothing
+//@   havoc F|state., F|peering., F|switchr., F|m.RoutingTable, MP|
+
+//@ type helloPingState
+//@   invariant exchange [C13]: self.encSession != nil && self.notify != nil
+
 //@ type AnnouncePingHandler
 //@   invariant wired [C13]: self.r != nil
+//@ type HelloPingHandler
+//@   invariant wired [C13]: self.r != nil && self.active != nil
+//@ type DisconnectPingHandler
+//@   invariant wired [C13]: self.r != nil
+//@ type ErrorPingHandler
+//@   invariant wired [C13]: self.r != nil
+//@   guarded routerStates by routerStatesLock
+//@   invariant states [C13]: self.routerStates != nil && (forall ip netip.Addr :: has(self.routerStates, ip) ==> self.routerStates[ip] != nil)
+//@ type routerErrorState
+//@   invariant maps [C13]: self.sent != nil && self.rcvd != nil
+//@ func ErrorPingHandler.getOrCreateState
+//@   ensures state [C13]: result != nil
 
 // ---- identities are verified before they reach the state (C01) ---------------------------------
 //@ func Router.sessionFromPingHeader
@@ -109,3 +131,28 @@ package router
 //@   option trusted
 //@   modifies nothing
 //@   havoc F|router.connStateEntry, F|sync/atomic.Uint32
+
+// ---- ping handlers change only state that belongs to the authenticated source (C07) -------------------
+// hello: the key exchange and the MTU are applied to the session of the frame's source, and to no other.
+//@ func HelloPingHandler.handlePingHelloRequest
+//@   requires nonnil(f) && f.data != nil && w != nil && hdr != nil
+//@   callsite state.State.GetSession session-of-source [C07]: arg1 == f.SrcIP()
+//@   callsite state.Session.SetTunMTU only-source-mtu [C07]: arg0 != nil && arg0.id == f.SrcIP()
+//@   callsite state.EncryptionSession.InitKeyServer rekeys-only-source [C07]: session != nil && session.id == f.SrcIP()
+
+//@ func HelloPingHandler.handlePingHelloResponse
+//@   requires nonnil(f) && f.data != nil && w != nil && hdr != nil
+//@   callsite state.State.GetSession session-of-source [C07]: arg1 == f.SrcIP()
+//@   callsite state.Session.SetEncryptionSession rekeys-only-source [C07]: arg0 != nil && arg0.id == f.SrcIP() && arg1 == pingState.encSession
+//@   callsite state.Session.SetTunMTU only-source-mtu [C07]: arg0 != nil && arg0.id == f.SrcIP()
+
+// disconnect: only routes through the announcing router are removed, only that router is marked offline.
+//@ func DisconnectPingHandler.Handle
+//@   requires nonnil(f) && f.data != nil && w != nil && hdr != nil
+//@   callsite m.RoutingTable.RemoveDisconnected only-routes-through-source [C07]: arg1 == f.SrcIP() && len(arg2) == 0
+//@   callsite state.State.MarkRouterOffline only-source [C07]: arg1 == f.SrcIP()
+
+// error: the only session an error ping can reset is the one with its source.
+//@ func ErrorPingHandler.Handle
+//@   requires nonnil(f) && f.data != nil && w != nil && hdr != nil
+//@   callsite state.State.SetEncryptionSession only-source-session [C07]: arg1 == f.SrcIP()
